@@ -694,7 +694,18 @@ func (w *idxWriter) Commit(ctx context.Context) (telem.TimeStamp, error) {
 	}
 	// because the range is exclusive, we need to add 1 nanosecond to the end
 	end.Lower++
-	for _, chW := range w.internal {
+	// Each channel persists its own domain index, one after another. The index channel
+	// goes first: if the process dies part-way through, the index holds timestamps that
+	// some data channels have no samples for yet (a state every reader handles), never
+	// data samples whose timestamps were lost.
+	idxW, writesIdx := w.internal[w.idx.ch.Key]
+	if writesIdx {
+		err = errors.Join(err, idxW.CommitWithEnd(ctx, end.Lower))
+	}
+	for key, chW := range w.internal {
+		if writesIdx && key == w.idx.ch.Key {
+			continue
+		}
 		err = errors.Join(err, chW.CommitWithEnd(ctx, end.Lower))
 	}
 	if err == nil {
@@ -714,13 +725,26 @@ func (w *idxWriter) Close() (ControlUpdate, error) {
 	update := ControlUpdate{
 		Transfers: make([]control.Transfer, 0, len(w.internal)),
 	}
-	for _, uWriter := range w.internal {
+	closeOne := func(uWriter *unaryWriterState) {
 		transfer, closeErr := uWriter.Close()
 		if closeErr != nil {
 			err = errors.Join(err, closeErr)
 		} else if transfer.Occurred() {
 			update.Transfers = append(update.Transfers, transfer)
 		}
+	}
+	// Closing a writer persists the commits it had not persisted yet. As in Commit, the
+	// index channel goes first so that a crash part-way through never leaves data
+	// samples without their timestamps.
+	idxW, writesIdx := w.internal[w.idx.ch.Key]
+	if writesIdx {
+		closeOne(idxW)
+	}
+	for key, uWriter := range w.internal {
+		if writesIdx && key == w.idx.ch.Key {
+			continue
+		}
+		closeOne(uWriter)
 	}
 	return update, err
 }
